@@ -244,6 +244,8 @@ def result_close(exp, obs, cc=True):
             return False, 'row count: expected %d got %d' % (len(er), len(orr))
         om = {}
         for r in orr:
+            if any(i not in r for i in ids):
+                return False, 'columns differ: the returned data lacks the identifier(s) %s (columns %s)' % (sorted(i for i in ids if i not in r), sorted(r))
             om[_key(r, ids)] = r
         if len(om) != len(orr):
             return False, 'observed rows have duplicate identifiers'
